@@ -10,7 +10,7 @@ from .. import env
 from ..core import Facet, Violation
 from ..gen import orbits as go
 from ..oracles import twobody as tb
-from .c01 import FORMS, HYP_FORMS, kappa_polar, oracle_coords
+from .c01 import FORMS, HYP_FORMS, frame_for, kappa_polar, oracle_coords
 
 RULE = ("Initial state drawn as elements (e in [1e-4,0.95] or [1.01,10]) and handed to the library in a "
         "drawn element form (coordinates computed by the oracle) and a drawn non-rotating frame; dt on "
@@ -34,16 +34,32 @@ def setup(shard):
     env.eop("missing-pass")
 
 
+_LABELS = {"epoch": "UTC", "target": "UTC", "epoch_us": None}
+LABELS = ["UTC", "UTC", "UTC", "TT", "GPS", "TAI"]  # exact offsets: the same instants to the microsecond
+
+
+def use_labels(case):
+    """The time scale the epoch and every other date of this case are written in (same instants)."""
+    _LABELS.update(epoch=case.get("epoch_label", "UTC"), target=case.get("label", "UTC"), epoch_us=case.get("epoch_us"))
+
+
+def label_cls(case):
+    ls = {case.get("label", "UTC"), case.get("epoch_label", "UTC")}
+    return ["labels:all-UTC"] if ls == {"UTC"} else ["labels:" + "+".join(sorted(ls))]
+
+
 def mkdate(us):
     from beyond.dates import Date
 
-    return Date(T0 + timedelta(microseconds=us))
+    d = Date(T0 + timedelta(microseconds=us))
+    label = _LABELS["epoch"] if us == _LABELS["epoch_us"] else _LABELS["target"]
+    return d if label == "UTC" else d.change_scale(label)
 
 
 @st.composite
-def kep_case(draw, hyp_ok=True, emax_ell=0.95):
+def kep_case(draw, hyp_ok=True, emax_ell=0.95, bodies=("Earth",)):
     hyp = hyp_ok and draw(st.integers(0, 9)) < 3
-    el = draw(go.elements(elliptic=not hyp, hyperbolic=hyp, emax_ell=emax_ell, emax_hyp=10.0, hmax=3.0,
+    el = draw(go.elements(elliptic=not hyp, hyperbolic=hyp, emax_ell=emax_ell, bodies=bodies, emax_hyp=10.0, hmax=3.0,
                           rp_range=(1.03, 8.0), mwind=1.0, emin_hyp=1.01))
     form = draw(st.sampled_from(HYP_FORMS if hyp else FORMS))
     frame = draw(st.sampled_from(FRAMES))
@@ -57,19 +73,23 @@ def kep_case(draw, hyp_ok=True, emax_ell=0.95):
     lam = draw(go.f(-1.0, 2.0))
     k = draw(st.sampled_from([-5, -4, -3, -2, -1, 1, 2, 3, 4, 5]))
     share = draw(st.booleans())
-    return dict(el=el, form=form, frame=frame, epoch_us=epoch_us, dt_us=dt_us, lam=lam, k=k, share=share)
+    if el["body"] != "Earth":
+        frame = "body-centred"  # the one non-rotating frame vf.props.c01.frame_for() builds on that body
+    return dict(el=el, form=form, frame=frame, epoch_us=epoch_us, dt_us=dt_us, lam=lam, k=k, share=share,
+                label=draw(st.sampled_from(LABELS)), epoch_label=draw(st.sampled_from(LABELS)))
 
 
 def build(case, propagator):
     from beyond.orbits import Orbit
 
     el = case["el"]
-    mu = go.MU_LIB()
+    mu = go.MU_LIB(el["body"])
     cart = tb.kep2cart(el["a"], el["e"], el["i"], el["raan"], el["argp"], el["nu"], mu)
     coords = oracle_coords(el, case["form"], mu, cart)
     if case["form"] in ("spherical", "cylindrical"):
         assume(kappa_polar(cart) < 1e4)  # polar axis = coordinate singularity of these forms
-    orb = Orbit(coords, mkdate(case["epoch_us"]), case["form"], case["frame"], propagator)
+    frame = case["frame"] if el["body"] == "Earth" else frame_for(el["body"])
+    orb = Orbit(coords, mkdate(case["epoch_us"]), case["form"], frame, propagator)
     return orb, cart, mu
 
 
@@ -110,6 +130,7 @@ def classes(case, n, dt):
 
 
 def check_kepler(case):
+    use_labels(case)
     from beyond.propagators.kepler import Kepler
 
     orb, cart0, mu = build(case, Kepler())
@@ -122,8 +143,8 @@ def check_kepler(case):
     res = orb.propagate(date)
     if res.date != date:
         raise Violation("date", f"result dated {res.date}, asked {date}")
-    if res.frame.name != case["frame"]:
-        raise Violation("frame", f"result in {res.frame.name}, initial orbit in {case['frame']}")
+    if res.frame.name != orb.frame.name:
+        raise Violation("frame", f"result in {res.frame.name}, initial orbit in {orb.frame.name}")
     got = as_cart(res)
     k = cond(el, n, dt, case['form'])
     r0 = float(np.linalg.norm(cart0[:3]))
@@ -210,10 +231,11 @@ def check_kepler(case):
         if dr > 1e-13 or dv > 1e-13:
             raise Violation("timedelta-arg", f"propagate(timedelta) != propagate(date): {dr:.3g}")
     nt = abs(dt) > 1 and (e > 1 or abs(n * dt) > math.pi or dt < 0)
-    return dict(nt=nt, cls=classes(case, n, dt), ratio=worst)
+    return dict(nt=nt, cls=classes(case, n, dt) + label_cls(case) + ['body:' + case['el']['body']], ratio=worst)
 
 
 def check_period(case):
+    use_labels(case)
     from beyond.propagators.kepler import Kepler
 
     orb, cart0, mu = build(case, Kepler())
@@ -258,6 +280,7 @@ def j2_case(draw):
 
 
 def check_j2(case):
+    use_labels(case)
     from beyond.constants import Earth
     from beyond.propagators.j2 import J2
 
@@ -316,8 +339,10 @@ def reuse_case(draw):
     c["propagator"] = draw(st.sampled_from(["kepler", "kepler", "j2"]))
     ops = []
     for _ in range(draw(st.integers(3, 7))):
-        name = draw(st.sampled_from(["prop", "prop", "form", "infos", "dv", "adopt"]))
+        name = draw(st.sampled_from(["prop", "prop", "form", "infos", "dv", "adopt", "clone"]))
         op = dict(op=name)
+        if name == "clone":
+            op["how"] = draw(st.sampled_from(["copy", "deepcopy", "pickle", "own"]))
         if name in ("prop", "adopt"):
             op["dt_us"] = draw(go.uniform_int(-2 * 86400 * 10**6, 2 * 86400 * 10**6))
         elif name == "form":
@@ -354,6 +379,7 @@ def _j2_compare(cart0, got, dt, mu, k, what):
 
 
 def check_reuse(case):
+    use_labels(case)
     from beyond.propagators.j2 import J2
     from beyond.propagators.kepler import Kepler
 
@@ -390,6 +416,16 @@ def check_reuse(case):
             if op["form"] in ("spherical", "cylindrical"):
                 assume(kappa_polar(cart0) < 1e4)
             cart0 = as_cart(orb)  # the numbers the object now holds (conversion accuracy is C01's)
+        elif op["op"] == "clone":
+            import copy
+            import pickle
+
+            old = orb
+            orb = {"copy": copy.copy, "deepcopy": copy.deepcopy, "own": lambda x: x.copy(),
+                   "pickle": lambda x: pickle.loads(pickle.dumps(x))}[op["how"]](old)
+            if not np.array_equal(np.asarray(orb), np.asarray(old)) or orb.form.name != old.form.name or orb.date != old.date:
+                raise Violation("reuse-clone-differs", f"op {idx}: the {op['how']} clone of the orbit differs from it")
+            tags.add("cloned")
         elif op["op"] == "infos":
             _ = orb.infos.n, orb.infos.period, orb.infos.kep
         elif op["op"] == "dv":
@@ -409,7 +445,7 @@ def check_reuse(case):
 
 
 FACETS = [
-    Facet("kepler", lambda s, t: kep_case(), check_kepler, setup=setup,
+    Facet("kepler", lambda s, t: kep_case(bodies=("Earth", "Earth", "Earth", "Moon", "Mars", "Sun")), check_kepler, setup=setup,
           rule="|dt| > 1 s and (hyperbolic or |n.dt| > pi or dt < 0)", quick=(16, 400), thorough=(32, 5000)),
     Facet("periodicity", lambda s, t: kep_case(hyp_ok=False), check_period, setup=setup,
           rule="bound orbit, dt = k periods, k in +-1..5", quick=(6, 300), thorough=(16, 3000)),
